@@ -175,13 +175,7 @@ impl Monitor for C14 {
                     return Err(viol("C14.lock_for_other", format!("position {} of {} changed by {}'s single-asset deposit", q.identifier, c.w.a.name(q.receiver.as_str()), c.w.a.name(sender))));
                 }
             }
-            if let Some(id) = lock_position_identifier {
-                if let Some(b) = pre.position(id) {
-                    if b.receiver.as_str() != sender.as_str() {
-                        return Err(viol("C14.lock_for_other", format!("foreign position {id} named as lock target and the deposit was accepted")));
-                    }
-                }
-            }
+            let _ = lock_position_identifier;
         }
         if n_assets != 2 || empty {
             return Ok(());
